@@ -157,8 +157,10 @@ def run_cic(res, tier, rng):
 def doc_of_ast(ast):
     """the JSON document a user would write for a constructor tree (independent of to_json)"""
     k = ast["k"]
+    # the documented spellings are chosen from the data: a variable may carry "type": "Variable" / "Proposition" or none, an AtLeast
+    # may leave its "type" out (a document with "propositions" and no type is an AtLeast)
     if k == "str":
-        return {"id": ast["id"]}
+        return dict({"id": ast["id"]}, **({"type": ["Variable", "Proposition"][len(str(ast["id"])) % 2]} if sum(map(ord, str(ast["id"]))) % 3 == 0 else {}))
     if k == "var":
         d = {"id": ast["id"]}
         if list(ast["b"]) != [0, 1]:
@@ -173,6 +175,8 @@ def doc_of_ast(ast):
         d = {"type": "AtLeast", "propositions": ch, "value": ast["v"]}
         if ast.get("s") is not None:
             d["sign"] = ast["s"]
+        if (ast["v"] + len(ch)) % 2 == 0:
+            del d["type"]
     elif k == "AtMost":
         d = {"type": "AtMost", "propositions": ch, "value": ast["v"]}
     else:
